@@ -150,7 +150,7 @@ func TestC29OpenerReplay(t *testing.T) { vstat.Replay(t, specC29o) }
 // ---- subscription lifecycle ----
 
 type c29Op struct {
-	// Op: sub, addh, rmh, rel, pub
+	// Op: sub, addh, rmh, rel, pub, slowrel (release while a delivery is in progress inside a slow handler)
 	Op string `json:"op"`
 	Ch int    `json:"ch"`
 	K  int    `json:"k"`
@@ -165,7 +165,7 @@ func genC29(t *rapid.T) c29Case {
 	var c c29Case
 	for i := 0; i < n; i++ {
 		c.Ops = append(c.Ops, c29Op{
-			Op: rapid.SampledFrom([]string{"sub", "sub", "addh", "addh", "rmh", "rel", "rel", "pub", "pub", "pub"}).Draw(t, "op"),
+			Op: rapid.SampledFrom([]string{"sub", "sub", "addh", "addh", "rmh", "rel", "rel", "pub", "pub", "pub", "slowrel"}).Draw(t, "op"),
 			Ch: rapid.IntRange(0, 1).Draw(t, "ch"),
 			K:  rapid.IntRange(0, 5).Draw(t, "k"),
 		})
@@ -173,13 +173,26 @@ func genC29(t *rapid.T) c29Case {
 	return c
 }
 
+// slowGate makes handlers block on messages whose data starts with "slow-" until released.
+type slowGate struct {
+	mu      sync.Mutex
+	entered chan struct{}
+	proceed chan struct{}
+}
+
 type c29Handler struct {
-	id     int
-	sub    int
-	remove func()
-	active bool
-	mu     sync.Mutex
-	got    []string
+	entries []c29Entry
+	id      int
+	sub     int
+	remove  func()
+	active  bool
+	mu      sync.Mutex
+	got     []string
+}
+
+type c29Entry struct {
+	data string
+	at   int64
 }
 
 type c29Sub struct {
@@ -216,6 +229,31 @@ func checkC29(c c29Case) (o vstat.Outcome) {
 	}
 	var subs []*c29Sub
 	var handlers []*c29Handler
+	sg := &slowGate{}
+	mkHandler := func(hd *c29Handler) func(m pubsub.Message) {
+		return func(m pubsub.Message) {
+			data := string(m.GetData())
+			hd.mu.Lock()
+			hd.got = append(hd.got, data)
+			hd.entries = append(hd.entries, c29Entry{data: data, at: tick()})
+			hd.mu.Unlock()
+			if len(data) > 5 && data[:5] == "slow-" {
+				sg.mu.Lock()
+				e, p := sg.entered, sg.proceed
+				sg.mu.Unlock()
+				if e != nil {
+					select {
+					case e <- struct{}{}:
+					default:
+					}
+					select {
+					case <-p:
+					case <-time.After(5 * time.Second):
+					}
+				}
+			}
+		}
+	}
 	liveOn := func(ch int) int {
 		k := 0
 		for _, s := range subs {
@@ -273,11 +311,7 @@ func checkC29(c c29Case) (o vstat.Outcome) {
 			}
 			si := cand[op.K%len(cand)]
 			hd := &c29Handler{id: len(handlers), sub: si, active: true}
-			hd.remove = subs[si].s.AddHandler(func(m pubsub.Message) {
-				hd.mu.Lock()
-				hd.got = append(hd.got, string(m.GetData()))
-				hd.mu.Unlock()
-			})
+			hd.remove = subs[si].s.AddHandler(mkHandler(hd))
 			handlers = append(handlers, hd)
 		case "rmh":
 			var cand []*c29Handler
@@ -314,6 +348,84 @@ func checkC29(c c29Case) (o vstat.Outcome) {
 					hd.active = false
 				}
 			}
+		case "slowrel":
+			// a subscription with two active handlers; a message is being delivered (first handler blocked) while Release runs
+			si := -1
+			for i, sb := range subs {
+				if sb.live {
+					si = i
+				}
+			}
+			if si < 0 {
+				ns, err := n.ps.AddSubscription(n.ctx, gen.Key(0), c29Channels[op.Ch])
+				if err != nil {
+					o.V = vstat.Viol("subscribe-failed", "%v", err)
+					return
+				}
+				subs = append(subs, &c29Sub{ch: op.Ch, s: ns, live: true})
+				si = len(subs) - 1
+				// the node must have announced/activated the channel before a message for it is accepted
+				chName := c29Channels[op.Ch]
+				waitFor(3*time.Second, func() bool { st, seen := lastAnnounced(chName); return seen && st })
+			}
+			act := 0
+			for _, hd := range handlers {
+				if hd.sub == si && hd.active {
+					act++
+				}
+			}
+			for ; act < 2; act++ {
+				hd := &c29Handler{id: len(handlers), sub: si, active: true}
+				hd.remove = subs[si].s.AddHandler(mkHandler(hd))
+				handlers = append(handlers, hd)
+			}
+			pubN++
+			data := fmt.Sprintf("slow-%d", pubN)
+			sg.mu.Lock()
+			sg.entered, sg.proceed = make(chan struct{}, 4), make(chan struct{})
+			entered, proceed := sg.entered, sg.proceed
+			sg.mu.Unlock()
+			_ = h.send(&floodsub.Packet{Publish: []*peer.SignedMsg{mkPub("honest", 1, 3, c29Channels[subs[si].ch], "", []byte(data))}})
+			select {
+			case <-entered:
+			case <-time.After(5 * time.Second):
+				close(proceed)
+				o.V = vstat.Viol("active-handler-missed", "after %v: message %q never reached a handler of a live subscription", hist, data)
+				return
+			}
+			relDone := make(chan int64, 1)
+			go func() { subs[si].s.Release(); relDone <- tick() }()
+			time.Sleep(10 * time.Millisecond)
+			close(proceed)
+			var relAt int64
+			select {
+			case relAt = <-relDone:
+			case <-time.After(5 * time.Second):
+				o.V = vstat.Viol("release-stuck", "Release did not return")
+				return
+			}
+			subs[si].live = false
+			time.Sleep(40 * time.Millisecond)
+			for _, hd := range handlers {
+				if hd.sub != si {
+					continue
+				}
+				hd.active = false
+				hd.mu.Lock()
+				for _, e := range hd.entries {
+					if e.data == data && e.at > relAt {
+						hd.mu.Unlock()
+						o.V = vstat.Viol("handler-invoked-after-release", "after %v: handler %d was invoked for %q after Release() of its subscription had returned", hist, hd.id, data)
+						return
+					}
+				}
+				hd.mu.Unlock()
+			}
+			sg.mu.Lock()
+			sg.entered, sg.proceed = nil, nil
+			sg.mu.Unlock()
+			relInFlight = true
+			o.Classes = append(o.Classes, "release-during-delivery")
 		case "pub":
 			pubN++
 			data := fmt.Sprintf("msg-%d-%s", pubN, c29Channels[op.Ch])
